@@ -41,6 +41,10 @@ func parseExe(root *Root, reader io.Reader) (exe *Executable, err error) {
 			break
 		}
 		var op *Op
+		// Note where the token starts, reading it looks one byte ahead which
+		// can be on the next line already.
+		line := p.line
+		col := p.col
 		token, err = p.readToken()
 		if err == nil {
 			switch token {
@@ -82,7 +86,7 @@ func parseExe(root *Root, reader io.Reader) (exe *Executable, err error) {
 					exe.Ops[""] = op
 				}
 			default:
-				err = parseError(p.line, p.col-len(token), "'%s' is not a valid executable operation type", token)
+				err = parseError(line, col, "'%s' is not a valid executable operation type", token)
 			}
 		}
 	}
@@ -257,8 +261,11 @@ func (p *exeParser) readFragmentDef() (frag *Fragment, err error) {
 	}
 	if err == nil {
 		var token string
+		// The position is noted before the token is read, see parseExe.
+		line := p.line
+		col := p.col
 		if token, err = p.readToken(); token != "on" {
-			err = parseError(p.line, p.col-2, "missing fragment condition")
+			err = parseError(line, col+len(token)-2, "missing fragment condition")
 		}
 	}
 	if err == nil {
@@ -310,14 +317,18 @@ func (p *exeParser) readVarDefs() (vds []*VarDef, err error) {
 
 func (p *exeParser) readVarDef() (vd *VarDef, err error) {
 	vd = &VarDef{}
+	// The name starts right after the $ just read. Noted before reading the
+	// name since that looks one byte ahead, maybe onto the next line.
+	line := p.line
+	col := p.col + 1
 	if vd.Name, err = p.readToken(); err != nil {
 		return
 	}
 	if len(vd.Name) == 0 {
 		return nil, parseError(p.line, p.col, "variable name missing")
 	}
-	vd.line = p.line
-	vd.col = p.col - len(vd.Name)
+	vd.line = line
+	vd.col = col
 	var b byte
 	if b, err = p.skipSpace(); err != nil {
 		return nil, err
